@@ -1,7 +1,7 @@
 #!/usr/bin/env python3
 """Writes one prompt per property for a seeding sub-agent (only the property text
 and the path of its own scratch worktree), as used for the two rounds recorded
-in DESIGN.md 8.4.  usage: mk_seed_prompts.py <outdir> [round2|round3|round4|round5]"""
+in DESIGN.md 8.4.  usage: mk_seed_prompts.py <outdir> [round2|round3|round4|round5|round6]"""
 import json, sys
 out = sys.argv[1]
 tmpl = open('/verif/tools/seed_prompt.tmpl').read().replace('/tmp/seed/', out.rstrip('/') + '/')
@@ -27,6 +27,12 @@ ADDITIONAL CONSTRAINT (fifth, independent round): four earlier rounds have been 
 '''
 if len(sys.argv) > 2 and sys.argv[2] == 'round5':
     extra = extra5
+extra6 = '''
+
+ADDITIONAL CONSTRAINT (sixth, independent round): five earlier rounds have covered the anchor functions, their helpers, configuration paths, unusual inputs and rare command-line options, and automated differential checkers exist at two levels: over the rg binary and over the library crates (grep-searcher with recording sinks and scripted readers, grep-regex matchers, globset, the ignore walker). Think in terms of PAIRS: name two invocations (or two API calls, or the same call before and after something else happened) that this property says must agree, or an equation between their results, and make a change that breaks the equation only in a narrow situation - for example only for the second of two equal calls, only when a builder option is set to its non-default value AND another one too, only when an optional component is absent (no line numbers, no path, no stats, no heading, max_context = 0, empty glob set, zero patterns, zero roots), only at a count of exactly 0 or 1 or at a power of two, only for the last element, or only when two inputs are equal. Library-level configurations that the rg binary never uses are fair game as long as the property's quantifier includes them. Keep it a clean semantic violation of the property as stated with a deterministic demo (an rg command line, or a small Rust test / example using the crate's public API).
+'''
+if len(sys.argv) > 2 and sys.argv[2] == 'round6':
+    extra = extra6
 for line in open('/verif/properties.jsonl'):
     p = json.loads(line)
     open('%s/%s.prompt.txt' % (out, p['id']), 'w').write(
